@@ -39,6 +39,7 @@ var (
 	vxSentParses    bool
 	vxSentSafe      bool
 	vxFinalParses   bool
+	vxFinalTrailing bool
 	vxFinalVerdict  string
 	vxFinalEvidence string
 	vxServer        *httptest.Server
@@ -47,6 +48,10 @@ var (
 func vxHTTPScript(s []vxExchange)                              { vxScript = s }
 func vxSentinelAnswer(parses, safe bool)                       { vxSentParses, vxSentSafe = parses, safe }
 func vxFinalAnswer(parses bool, verdict, evidence string)      { vxFinalParses, vxFinalVerdict, vxFinalEvidence = parses, verdict, evidence }
+
+// vxFinalTrailingData: the final answer is a complete JSON object followed by further data
+// (a second, contradicting object) - not well-formed JSON as a whole
+func vxFinalTrailingData(t bool) { vxFinalTrailing = t }
 func vxAsciiText(s string) bool {
 	for i := 0; i < len(s); i++ {
 		if s[i] < 0x20 || s[i] >= 0x7f {
@@ -93,6 +98,9 @@ func vxAPIBase() string {
 			if vxFinalParses {
 				b, _ := json.Marshal(models.LLMResult{Verdict: vxFinalVerdict, Evidence: vxFinalEvidence})
 				text = string(b)
+				if vxFinalTrailing {
+					text += ` {"verdict": "LIE", "evidence": "second object"}`
+				}
 			} else {
 				text = "final garbage"
 			}
@@ -250,6 +258,8 @@ func VerifC13_CallLLM() {
 	evidence := vxStr(vxParam("evidencelen", 16))
 	vxAssume(vxAnd(vxAsciiText(verdict), vxAsciiText(evidence)))
 	vxFinalAnswer(finalParses, verdict, evidence)
+	trailing := vxBool()
+	vxFinalTrailingData(trailing)
 	msg := vxConcretizeLen(vxStr(vxParam("msglen", 8)))
 	vxAssume(vxAsciiText(msg))
 	ev := []models.AuditEvidence{{Function: "f", RiskScore: 12, StructuralDelta: "Calls+2", AddedOperations: "call"}}
@@ -258,7 +268,7 @@ func VerifC13_CallLLM() {
 
 	acceptable := vxAnd(vxStrEq(verdict, "MATCH"), vxAnd(!vxContainsFold(evidence, "ignore previous"), !vxContainsFold(evidence, "system prompt")))
 	mayPass := false
-	if !nonceFails && gotS && sentParses && sentSafe && gotF && finalParses {
+	if !nonceFails && gotS && sentParses && sentSafe && gotF && finalParses && !trailing {
 		mayPass = acceptable
 	}
 	passed := false
@@ -277,7 +287,7 @@ func VerifC13_CallLLM() {
 		vxCover("unsafe-screen-reachable", true)
 	}
 	// a verdict outside the whitelist, or forbidden phrases, never comes back as MATCH/LIE from the model
-	if err == nil && !nonceFails && gotS && sentParses && sentSafe && gotF && finalParses {
+	if err == nil && !nonceFails && gotS && sentParses && sentSafe && gotF && finalParses && !trailing {
 		vxAssert("bad-output-is-suspicious", vxImplies(!acceptable, !vxStrEq(res.Verdict, "MATCH")))
 	}
 }
